@@ -397,7 +397,7 @@ func runFlags(ctx *core.RunCtx) {
 			}
 		}()
 		var pre rt.Value
-		if spelling >= 4 {
+		if spelling >= 4 && spelling <= 6 {
 			pre = prebuilt(spelling - 4)
 			if pre.IsNil() {
 				spelling = 0
@@ -409,6 +409,13 @@ func runFlags(ctx *core.RunCtx) {
 			switch spelling {
 			case 4, 5, 6: // set up outside the context, finished inside it
 				err = rt.Call(th, pre, args, term)
+			case 7, 8, 9: // inside a nested context with limits (time; cpu and memory; flags only) of its own
+				def := []rt.RuntimeContextDef{
+					{HardLimits: rt.RuntimeResources{Millis: 100000}},
+					{HardLimits: rt.RuntimeResources{Cpu: 10000000, Memory: 50000000}, SoftLimits: rt.RuntimeResources{Millis: 100000}},
+					{RequiredFlags: rt.ComplyCpuSafe},
+				}[spelling-7]
+				_, err = th.CallContext(def, func() error { return rt.Call(th, fn.v, args, term) })
 			case 0:
 				err = rt.Call(th, fn.v, args, term)
 			case 1: // through pcall
@@ -495,7 +502,7 @@ func runFlags(ctx *core.RunCtx) {
 		flags := flagSet(bits)
 		for rep := 0; rep < 2; rep++ {
 			args, adesc := mkArgs(rep == 0 && g.Chance(2, 3))
-			spelling := g.Choose(7)
+			spelling := g.Choose(10)
 			traced := tracer != nil && (bits&^declared != 0 || bits&8 != 0)
 			if traced {
 				tracer.begin()
